@@ -25,7 +25,9 @@ def run(ctx):
     # fine tier: every plain (non-volatile, non-atomic) access of the library and the scenario is a scheduling point as well
     fpb = 1 if q else 2
     for v in sorted(bounds):
-        jobs += SL.job(b, "future", v, fpb, 0, extra=["--plain", "1", "--horizon", "200000", "--spurious", "0", "--delay-bounded", "1"], shards=2 if q else 16)
+        # the two long sequential scenarios (F9: eight calls, F11: twenty-two calls) keep one preemption in the fine tier
+        fb = 1 if v in (8, 10) else fpb
+        jobs += SL.job(b, "future", v, fb, 0, extra=["--plain", "1", "--horizon", "200000", "--spurious", "0", "--delay-bounded", "1"], shards=2 if q else 16)
     ctx.run_jobs(jobs, parallel=16)
     pb = max(bounds.values())
     cov = SL.coverage(ctx, "scenarios F1-F11 on the real Future/ThreadPool (Future.cpp included into the scenario unit to install pools with queue size 1/2 and to shut the "
